@@ -116,7 +116,9 @@ def replay_chunk(items, root, seed):
                                   % (st['mode'], st['nsel'], st['aps'], len(segs), len(curves)), desc)
                     break
                 bad = None
-                for ci, cv in enumerate(curves):
+
+                def mismatch(ci, cv):
+                    """None if observed curve ci passes through every predicted flux the spec curve cv has to pass through"""
                     seg = np.asarray(segs[ci])
                     r = cv['rank'] - 1
                     for f, fw_i in enumerate(w.filt_w):
@@ -125,17 +127,45 @@ def replay_chunk(items, root, seed):
                             continue
                         k = int(np.argmin(np.abs(seg[:, 0] - WAV[fw_i])))
                         if abs(seg[k, 0] - WAV[fw_i]) > 1e-9:
-                            bad = 'curve %d has no point at %g um' % (ci, WAV[fw_i])
-                            break
+                            return 'curve %d has no point at %g um' % (ci, WAV[fw_i])
                         nu = CLIGHT / (WAV[fw_i] * 1e-6)
                         want = pred[r, f] - 26.0 + math.log10(nu)
                         got = math.log10(seg[k, 1]) if seg[k, 1] > 0 else float('nan')
                         if not abs(got - want) <= 2e-3:
-                            bad = ('curve %d (fit ranked %d, aperture %s) at %g um: log10 %.5f, the fit predicts %.5f (model %s, A_V %.3f, scale %.3f)'
-                                   % (ci, cv['rank'], cv['ap'] or 'own', WAV[fw_i], got, want, str(info.model_name[r]).strip(), info.av[r], info.sc[r]))
-                            break
-                    if bad:
-                        break
+                            return ('curve %d at %g um: log10 %.5f, the fit ranked %d (aperture %s) predicts %.5f (model %s, A_V %.3f, scale %.3f)'
+                                    % (ci, WAV[fw_i], got, cv['rank'], cv['ap'] or 'own', want, str(info.model_name[r]).strip(), info.av[r], info.sc[r]))
+                    return None
+
+                def unmatched(obs_idx, exp_idx):
+                    """perfect matching between observed curves and the spec's curves (the ORDER of the curves of one fit, and of the
+                    fits other than the best, is not part of C17); returns the first spec curve left without a partner, or None"""
+                    ok = {e: [o for o in obs_idx if mismatch(o, curves[e]) is None] for e in exp_idx}
+                    partner = {}
+
+                    def augment(e, seen):
+                        for o in ok[e]:
+                            if o in seen:
+                                continue
+                            seen.add(o)
+                            if o not in partner or augment(partner[o], seen):
+                                partner[o] = e
+                                return True
+                        return False
+                    for e in exp_idx:
+                        if not augment(e, set()):
+                            return e
+                    return None
+                n_best = sum(1 for cv in curves if cv['rank'] == 1)
+                best_e = [i for i, cv in enumerate(curves) if cv['rank'] == 1]
+                rest_e = [i for i, cv in enumerate(curves) if cv['rank'] != 1]
+                n = len(curves)
+                e_bad = unmatched(list(range(n - n_best, n)), best_e)           # the best fit is drawn last
+                if e_bad is not None:
+                    bad = 'the last %d curve(s) are not the best fit: %s' % (n_best, mismatch(n - n_best + best_e.index(e_bad), curves[e_bad]))
+                else:
+                    e_bad = unmatched(list(range(n - n_best)), rest_e)
+                    if e_bad is not None:
+                        bad = 'no curve for the fit ranked %d, aperture %s: e.g. %s' % (curves[e_bad]['rank'], curves[e_bad]['ap'] or 'own', mismatch(min(e_bad, n - n_best - 1), curves[e_bad]))
                 if bad:
                     col.violation('C17:curve_value:%s' % st['mode'], 'sed_type=%r, %d fits, filter apertures %r arcsec, %s-aperture package, %s input, source %d of %d in one call: %s'
                                   % (st['mode'], st['nsel'], st['aps'], 'multi' if st['multi'] else 'single', st['form'], si + 1, nsrc, bad), desc)
